@@ -44,7 +44,7 @@ pub fn spec() -> CheckSpec {
     ],
     real_components: "deno_graph builder (load_pending_module, try_load, handle_redirect, load_jsr_subpath, visit), JsrMetadataStore, LoaderChecksum",
     stub_components: "Loader (two tiers, tampering, logs bytes served), Locker (records every call), other seams simulated",
-    quick_cases: 6000,
+    quick_cases: 10000,
     thorough_cases: 400000,
     run_case,
     systematic: |_| 0,
@@ -942,7 +942,47 @@ pub fn run_case(tape: &mut Tape, _tier: Tier, _p: &CaseParams) -> CaseOutcome {
     };
     let i1 = integrity(&r1);
     let i2 = integrity(&r2);
-    if let Some(u) = i2.difference(&i1).next() {
+    // a final specifier that some alias (a url answered with it as final
+    // specifier) serves with other bytes than it serves itself is not one
+    // resource with one content: which bytes the first build used - and
+    // recorded - depends on which request came first, and the second build may
+    // legitimately meet the other ones
+    let divergent: BTreeSet<String> = {
+      let mut d = BTreeSet::new();
+      let tiers: Vec<Vec<(&String, &Entry)>> = vec![
+        world.remote.iter().collect(),
+        world
+          .cache
+          .iter()
+          .filter_map(|(k, v)| v.as_ref().map(|e| (k, e)))
+          .collect(),
+      ];
+      for tier in &tiers {
+        for (_, e) in tier {
+          if let Entry::Module {
+            bytes,
+            final_url: Some(to),
+            ..
+          } = e
+          {
+            let own: Vec<&Vec<u8>> = tiers
+              .iter()
+              .flat_map(|t| t.iter())
+              .filter(|(k, _)| *k == to)
+              .filter_map(|(_, e)| match e {
+                Entry::Module { bytes, final_url: None, .. } => Some(bytes),
+                _ => None,
+              })
+              .collect();
+            if own.iter().any(|b| *b != bytes) {
+              d.insert(to.clone());
+            }
+          }
+        }
+      }
+      d
+    };
+    if let Some(u) = i2.difference(&i1).filter(|u| !divergent.contains(*u)).next() {
       let newly_recorded = !initial_remote.contains_key(u)
         && r1.locker.remote.contains_key(u);
       out.violation(
